@@ -393,3 +393,114 @@ Proof. reflexivity. Qed.
 Lemma src_bt_DescendLessOrEqual_ok : src_bt_DescendLessOrEqual =
   "{ if t.root == nil { return } t.root.iterate(descend, pivot, nil, true, false, iterator) }".
 Proof. reflexivity. Qed.
+
+(* ---- the rest of pkg/btree that model/C07_BTree.v transcribes (the Gallina B-tree of the refinement proof) ---- *)
+(* pkg/btree/btree.go: (items).insertAt, body *)
+Lemma src_bt_items_insertAt_ok : Gen_C07.src_bt_items_insertAt =
+  "{ *s = append(*s, nil) if index < len(*s) { copy((*s)[index+1:], (*s)[index:]) } (*s)[index] = item }".
+Proof. reflexivity. Qed.
+
+(* pkg/btree/btree.go: (items).removeAt, body *)
+Lemma src_bt_items_removeAt_ok : Gen_C07.src_bt_items_removeAt =
+  "{ item := (*s)[index] copy((*s)[index:], (*s)[index+1:]) (*s)[len(*s)-1] = nil *s = (*s)[:len(*s)-1] return item }".
+Proof. reflexivity. Qed.
+
+(* pkg/btree/btree.go: (items).pop, body *)
+Lemma src_bt_items_pop_ok : Gen_C07.src_bt_items_pop =
+  "{ index := len(*s) - 1 out = (*s)[index] (*s)[index] = nil *s = (*s)[:index] return }".
+Proof. reflexivity. Qed.
+
+(* pkg/btree/btree.go: (items).truncate, body *)
+Lemma src_bt_items_truncate_ok : Gen_C07.src_bt_items_truncate =
+  "{ var toClear items *s, toClear = (*s)[:index], (*s)[index:] for len(toClear) > 0 { toClear = toClear[copy(toClear, nilItems):] } }".
+Proof. reflexivity. Qed.
+
+(* pkg/btree/btree.go: (children).insertAt, body *)
+Lemma src_bt_children_insertAt_ok : Gen_C07.src_bt_children_insertAt =
+  "{ *s = append(*s, nil) if index < len(*s) { copy((*s)[index+1:], (*s)[index:]) } (*s)[index] = n }".
+Proof. reflexivity. Qed.
+
+(* pkg/btree/btree.go: (children).removeAt, body *)
+Lemma src_bt_children_removeAt_ok : Gen_C07.src_bt_children_removeAt =
+  "{ n := (*s)[index] copy((*s)[index:], (*s)[index+1:]) (*s)[len(*s)-1] = nil *s = (*s)[:len(*s)-1] return n }".
+Proof. reflexivity. Qed.
+
+(* pkg/btree/btree.go: (children).pop, body *)
+Lemma src_bt_children_pop_ok : Gen_C07.src_bt_children_pop =
+  "{ index := len(*s) - 1 out = (*s)[index] (*s)[index] = nil *s = (*s)[:index] return }".
+Proof. reflexivity. Qed.
+
+(* pkg/btree/btree.go: (children).truncate, body *)
+Lemma src_bt_children_truncate_ok : Gen_C07.src_bt_children_truncate =
+  "{ var toClear children *s, toClear = (*s)[:index], (*s)[index:] for len(toClear) > 0 { toClear = toClear[copy(toClear, nilChildren):] } }".
+Proof. reflexivity. Qed.
+
+(* pkg/btree/btree.go: (indices).truncate, body *)
+Lemma src_bt_indices_truncate_ok : Gen_C07.src_bt_indices_truncate =
+  "{ *s = (*s)[:index] }".
+Proof. reflexivity. Qed.
+
+(* pkg/btree/btree.go: (node).mutableFor, body *)
+Lemma src_bt_node_mutableFor_ok : Gen_C07.src_bt_node_mutableFor =
+  "{ if n.cow == cow { return n } out := cow.newNode() if cap(out.items) >= len(n.items) { out.items = out.items[:len(n.items)] } else { out.items = make(items, len(n.items), cap(n.items)) } copy(out.items, n.items) if cap(out.children) >= len(n.children) { out.children = out.children[:len(n.children)] } else { out.children = make(children, len(n.children), cap(n.children)) } copy(out.children, n.children) if cap(out.indices) >= len(n.indices) { out.indices = out.indices[:len(n.indices)] } else { out.indices = make(indices, len(n.indices), cap(n.indices)) } copy(out.indices, n.indices) return out }".
+Proof. reflexivity. Qed.
+
+(* pkg/btree/btree.go: (node).mutableChild, body *)
+Lemma src_bt_node_mutableChild_ok : Gen_C07.src_bt_node_mutableChild =
+  "{ c := n.children[i].mutableFor(n.cow) n.children[i] = c return c }".
+Proof. reflexivity. Qed.
+
+(* pkg/btree/btree.go: (node).get, body *)
+Lemma src_bt_node_get_ok : Gen_C07.src_bt_node_get =
+  "{ i, found := n.items.find(key) if found { return n.items[i] } else if len(n.children) > 0 { return n.children[i].get(key) } return nil }".
+Proof. reflexivity. Qed.
+
+(* pkg/btree/btree.go: ().min, body *)
+Lemma src_bt_min_ok : Gen_C07.src_bt_min =
+  "{ if n == nil { return nil } for len(n.children) > 0 { n = n.children[0] } if len(n.items) == 0 { return nil } return n.items[0] }".
+Proof. reflexivity. Qed.
+
+(* pkg/btree/btree.go: ().max, body *)
+Lemma src_bt_max_ok : Gen_C07.src_bt_max =
+  "{ if n == nil { return nil } for len(n.children) > 0 { n = n.children[len(n.children)-1] } if len(n.items) == 0 { return nil } return n.items[len(n.items)-1] }".
+Proof. reflexivity. Qed.
+
+(* pkg/btree/btree.go: (BTree).Delete, body *)
+Lemma src_bt_Delete_ok : Gen_C07.src_bt_Delete =
+  "{ return t.deleteItem(item, removeItem) }".
+Proof. reflexivity. Qed.
+
+(* pkg/btree/btree.go: (BTree).DeleteMin, body *)
+Lemma src_bt_DeleteMin_ok : Gen_C07.src_bt_DeleteMin =
+  "{ return t.deleteItem(nil, removeMin) }".
+Proof. reflexivity. Qed.
+
+(* pkg/btree/btree.go: (BTree).DeleteMax, body *)
+Lemma src_bt_DeleteMax_ok : Gen_C07.src_bt_DeleteMax =
+  "{ return t.deleteItem(nil, removeMax) }".
+Proof. reflexivity. Qed.
+
+(* pkg/btree/btree.go: (BTree).Get, body *)
+Lemma src_bt_Get_ok : Gen_C07.src_bt_Get =
+  "{ if t.root == nil { return nil } return t.root.get(key) }".
+Proof. reflexivity. Qed.
+
+(* pkg/btree/btree.go: (BTree).Min, body *)
+Lemma src_bt_Min_ok : Gen_C07.src_bt_Min =
+  "{ return min(t.root) }".
+Proof. reflexivity. Qed.
+
+(* pkg/btree/btree.go: (BTree).Max, body *)
+Lemma src_bt_Max_ok : Gen_C07.src_bt_Max =
+  "{ return max(t.root) }".
+Proof. reflexivity. Qed.
+
+(* pkg/btree/btree.go: (BTree).Len, body *)
+Lemma src_bt_Len_ok : Gen_C07.src_bt_Len =
+  "{ return t.length }".
+Proof. reflexivity. Qed.
+
+(* pkg/btree/btree.go: (BTree).getRootLength, body *)
+Lemma src_bt_getRootLength_ok : Gen_C07.src_bt_getRootLength =
+  "{ if t.root == nil { return 0 } return t.root.length() }".
+Proof. reflexivity. Qed.
